@@ -74,8 +74,8 @@ var typeAliases = map[string]string{
 	"numeric": "numeric", "decimal": "numeric", "dec": "numeric",
 	"bool": "bool", "boolean": "bool",
 	"text": "text", "varchar": "text", "character varying": "text", "name": "text", "bpchar": "text", "char": "text", "character": "text",
-	"jsonb": "jsonb",
-	"json":  "json",
+	"jsonb":         "jsonb",
+	"json":          "json",
 	"nodecomposite": "nodecomposite", "edgecomposite": "edgecomposite", "pathcomposite": "pathcomposite",
 	"timestamp": "timestamp", "timestamp without time zone": "timestamp",
 	"timestamptz": "timestamptz", "timestamp with time zone": "timestamptz",
